@@ -9,6 +9,7 @@ Layers: API (parse_expression(...).get_value(...), pure function, in-process) an
 (`.8byte <expr>` / `v = <expr>` through the real CLI, value read back from the image).
 """
 from __future__ import annotations
+import re
 
 import json
 
@@ -185,6 +186,11 @@ def _run_cond(text, form, want):
 
 def _run_cli(text, form):
     lines = [f'{k} = {v}' for k, v in LABELS.items()]
+    # a constant spelled exactly like a literal of the expression (b-binary, or hexadecimal with trailing H and a leading
+    # letter) changes nothing: the literal still denotes its value
+    for w in sorted(set(re.findall(r'(?<![\w$%.])(?:b[01]+|[A-Fa-f][0-9A-Fa-f]*H)\b', text)))[:2]:
+        if w not in LABELS and not re.search(r'[\'"]', text):
+            lines.append(f'{w} = 77')
     if form == 0 and not text.lstrip().startswith('"'):
         lines.append(f'.8byte {text}')
     elif form == 1:
